@@ -176,7 +176,7 @@ static int bytes_eq(const uint8_t *a, size_t an, const uint8_t *b, size_t bn) {
 }
 
 /* 1 = equal; otherwise describes the first difference ("A" = first argument).
- * del_as_set: compare deleted files after sorting both sides (multiset). */
+ * del_as_set: compare deleted files as sets of (level, number). */
 static int ledit_equal(const ledit_t *a, const ledit_t *b, int del_as_set, char *d, size_t dn) {
   size_t i;
 #define DIFF(...) do { snprintf(d, dn, __VA_ARGS__); return 0; } while (0)
@@ -198,25 +198,32 @@ static int ledit_equal(const ledit_t *a, const ledit_t *b, int del_as_set, char 
       DIFF("compact pointer %zu (level %d): key '%s'(%zu) vs '%s'(%zu)", i, a->cp[i].level,
            vh_esc(a->cp[i].key, a->cp[i].klen), a->cp[i].klen, vh_esc(b->cp[i].key, b->cp[i].klen), b->cp[i].klen);
   }
-  if (a->ndel != b->ndel) DIFF("%zu vs %zu deleted files", a->ndel, b->ndel);
-  if (a->ndel > 0) {
-    const ldel_t *x = a->del, *y = b->del;
-    ldel_t *xs = NULL, *ys = NULL;
-    if (del_as_set) {
-      xs = malloc(a->ndel * sizeof(ldel_t)); ys = malloc(a->ndel * sizeof(ldel_t));
-      memcpy(xs, a->del, a->ndel * sizeof(ldel_t)); memcpy(ys, b->del, a->ndel * sizeof(ldel_t));
-      qsort(xs, a->ndel, sizeof(ldel_t), ldel_cmp); qsort(ys, a->ndel, sizeof(ldel_t), ldel_cmp);
-      x = xs; y = ys;
-    }
-    for (i = 0; i < a->ndel; i++) {
-      if (x[i].level != y[i].level || x[i].number != y[i].number) {
-        snprintf(d, dn, "deleted file %zu%s: (level %d, #%llu) vs (level %d, #%llu)", i, del_as_set ? " (sorted)" : "",
-                 x[i].level, (unsigned long long)x[i].number, y[i].level, (unsigned long long)y[i].number);
-        free(xs); free(ys);
-        return 0;
+  if (!del_as_set) {
+    if (a->ndel != b->ndel) DIFF("%zu vs %zu deleted files", a->ndel, b->ndel);
+    for (i = 0; i < a->ndel; i++)
+      if (a->del[i].level != b->del[i].level || a->del[i].number != b->del[i].number)
+        DIFF("deleted file %zu: (level %d, #%llu) vs (level %d, #%llu)", i, a->del[i].level, (unsigned long long)a->del[i].number,
+             b->del[i].level, (unsigned long long)b->del[i].number);
+  } else if (a->ndel + b->ndel > 0) {
+    /* deleted files are a SET of (level, number): order and repetition of records carry no meaning */
+    ldel_t *xs = malloc((a->ndel + 1) * sizeof(ldel_t)), *ys = malloc((b->ndel + 1) * sizeof(ldel_t));
+    size_t nx = 0, ny = 0;
+    int same = 1;
+    if (a->ndel) memcpy(xs, a->del, a->ndel * sizeof(ldel_t));
+    if (b->ndel) memcpy(ys, b->del, b->ndel * sizeof(ldel_t));
+    qsort(xs, a->ndel, sizeof(ldel_t), ldel_cmp); qsort(ys, b->ndel, sizeof(ldel_t), ldel_cmp);
+    for (i = 0; i < a->ndel; i++) if (nx == 0 || ldel_cmp(&xs[nx - 1], &xs[i]) != 0) xs[nx++] = xs[i];
+    for (i = 0; i < b->ndel; i++) if (ny == 0 || ldel_cmp(&ys[ny - 1], &ys[i]) != 0) ys[ny++] = ys[i];
+    if (nx != ny) { snprintf(d, dn, "%zu vs %zu distinct deleted files", nx, ny); same = 0; }
+    for (i = 0; same && i < nx; i++) {
+      if (ldel_cmp(&xs[i], &ys[i]) != 0) {
+        snprintf(d, dn, "deleted file set, element %zu: (level %d, #%llu) vs (level %d, #%llu)", i, xs[i].level,
+                 (unsigned long long)xs[i].number, ys[i].level, (unsigned long long)ys[i].number);
+        same = 0;
       }
     }
     free(xs); free(ys);
+    if (!same) return 0;
   }
   if (a->nnf != b->nnf) DIFF("%zu vs %zu new files", a->nnf, b->nnf);
   for (i = 0; i < a->nnf; i++) {
@@ -402,7 +409,7 @@ static size_t gen_count(vrng_t *r, int sc) {
 static void gen_edit(vrng_t *r, gedit_t *g, int caseidx) {
   ledit_t *L = &g->L;
   size_t i;
-  int q = (caseidx / 256) % 20;
+  int q = ((caseidx >> 8) + (caseidx & 0xff)) % 20;   /* every (mask, size class) pair within 5120 cases; balanced shards */
   memset(g, 0, sizeof(*g));
   g->mask = caseidx & 0xff;
   g->sc = q < 10 ? 0 : q < 16 ? 1 : q < 19 ? 2 : 3;
@@ -570,7 +577,7 @@ static int agree(ectx_t *X, const uint8_t *p, size_t n, int expect, const char *
   ok_real = ldb_edit_import(&E, &src) != 0;
   ok_rc = rc_edit_decode(q, n, &rc) == 0;
   if (expect < 0 && ok_real && E.has_comparator &&
-      (E.comparator.size >= sizeof(rc.comparator) || memchr(E.comparator.data, 0, E.comparator.size) != NULL)) {
+      (E.comparator.size >= sizeof(rc.comparator) || (E.comparator.size > 0 && memchr(E.comparator.data, 0, E.comparator.size) != NULL))) {
     /* reference limitation, not a format rule: names are kept as C strings in char[256] */
     if (ok_rc) rc_edit_free(&rc);
     ldb_edit_clear(&E);
@@ -611,8 +618,13 @@ static void bsplice(rc_buf_t *v, const rc_buf_t *src, size_t off, size_t oldlen,
   rc_buf_append(v, src->data + off + oldlen, src->len - off - oldlen);
 }
 
-static void malformed_variants(vrng_t *r, ectx_t *X, const enc_t *R) {
-  const rc_buf_t *B = &R->b;
+static void malformed_variants(vrng_t *r, ectx_t *X, const enc_t *R0) {
+  /* big edits: truncation / level variants on the whole encoding but fewer of them; the
+   * appended-record classes work on the (valid) prefix made of the first 40 records */
+  const int big = R0->b.len > 20000 && R0->nu > 40;
+  enc_t Rs;
+  const enc_t *R = R0;
+  const rc_buf_t *B = &R0->b;
   rc_buf_t v;
   char what[160];
   size_t i, u;
@@ -628,8 +640,8 @@ static void malformed_variants(vrng_t *r, ectx_t *X, const enc_t *R) {
       agree(X, B->data, i, isb[i], what);
     }
   } else {
-    for (i = 0; i < 48; i++) {
-      size_t cut = i < 16 ? B->len - 1 - i : (size_t)(vr_next(r) % B->len);
+    for (i = 0; i < (size_t)(big ? 10 : 48); i++) {
+      size_t cut = i < (size_t)(big ? 4 : 16) ? B->len - 1 - i : (size_t)(vr_next(r) % B->len);
       snprintf(what, sizeof(what), "the %zu-byte prefix of a %zu-byte edit", cut, B->len);
       agree(X, B->data, cut, isb[cut], what);
     }
@@ -638,7 +650,7 @@ static void malformed_variants(vrng_t *r, ectx_t *X, const enc_t *R) {
   /* (2) out-of-range levels in tags 5/6/7; (3) non-canonical but in-range level */
   {
     static const uint32_t bad[] = {7, 8, 127, 128, 255, 0x7fffffffu, 0x80000000u, 0xffffffffu};
-    size_t picks = R->nu < 6 ? R->nu : 6, k;
+    size_t picks = big ? 1 : R->nu < 6 ? R->nu : 6, k;
     for (k = 0; k < picks; k++) {
       uint8_t t[8];
       size_t b;
@@ -673,6 +685,14 @@ static void malformed_variants(vrng_t *r, ectx_t *X, const enc_t *R) {
         agree(X, v.data, v.len, -1, what);
       }
     }
+  }
+
+  if (big) {
+    Rs = *R0;
+    Rs.nu = 40;
+    Rs.b.len = R0->uoff[40];
+    R = &Rs;
+    B = &Rs.b;
   }
 
   /* (4) unknown tags inserted at a unit boundary */
@@ -842,6 +862,8 @@ static void run_edit_case(int caseidx) {
   } else {
     from_rc(&lr, &rc);
     if (!ldel_sorted(&lr)) sorted_order = 0;
+    if (lr.ndel != g.L.ndel)
+      ev(&X, "reference-decoder-fields-differ", "the exported bytes hold %zu deleted-file records for a set of %zu", lr.ndel, g.L.ndel);
     if (!ledit_equal(&g.L, &lr, 1, d, sizeof(d)))
       ev(&X, "reference-decoder-fields-differ", "reference decoder reads other fields from the exported bytes (set vs decoded): %s; %zu bytes: %s",
          d, b1.size, vh_hex(b1.data, b1.size));
